@@ -1,5 +1,6 @@
 import Goyang.Model.Dump
 import Goyang.Model.TypesLite
+import Goyang.Model.Types
 /-
 Resolver driver.
   process <ignoreCircular 0/1> <ignoreNotSupported 0/1> <files in wire format>
@@ -26,6 +27,23 @@ def loadFiles (files : List SrcFile) : Registry := files.foldl loadFile {}
 
 def plugLite : Plug := { tres := typesLite, identityErrs := fun _ => [], typedefErrs := fun _ => [] }
 
+/-- Which statement of a cyclic type definition Go reports depends on where the cycle is entered
+first (memoisation); the dump compares such errors without their position. -/
+def normTypeErr (e : Err) : Err := if e.cls == "cycle" then Err.bare "type-cycle" else e
+
+/-- The other layers plugged in: type resolution (C09 layer) and identity resolution (C11 layer),
+with the environment (links, identity dictionary) built once per registry. -/
+def plugFull (reg : Registry) : Plug :=
+  let env := Types.Env.of reg
+  { tres := { resolve := fun _ root scope t =>
+      let (y, errs) := Types.resolveTypeE env root scope t
+      (y.map fun y => { dump := y.dump, hasDefault := y.hasDefault, default := y.default }, errs.map normTypeErr) },
+    identityErrs := fun reg =>
+      match Identity.run (Identity.Oracle.ofNat 0) reg with
+      | .done res _ => res.errs
+      | _ => [],
+    typedefErrs := fun _ => (Types.resolveAllTypedefsE env).map normTypeErr }
+
 def handle : List String → String
   | "process" :: ic :: ins :: rest =>
     match Wire.decFiles (rest.length + 1) rest with
@@ -35,7 +53,7 @@ def handle : List String → String
       | none =>
         let reg := loadFiles files
         let opts : Opts := { ignoreCircular := ic == "1", ignoreNotSupported := ins == "1" }
-        dumpOutcome (processAll reg opts plugLite)
+        dumpOutcome (processAll reg opts (plugFull reg))
     | _ => "outsideModel undecodable"
   | _ => "bad-op"
 
